@@ -52,8 +52,8 @@ ANCHORS = [
 
 def plan(tier):
     if tier == "quick":
-        return {"shards": 16, "site_calls": 1500, "schemas": 120, "values": 8, "timeout": 300}
-    return {"shards": 16, "site_calls": 120000, "schemas": 9000, "values": 10, "timeout": 3000}
+        return {"shards": 16, "site_calls": 1500, "schemas": 120, "values": 8, "timeout": 900}
+    return {"shards": 16, "site_calls": 120000, "schemas": 9000, "values": 10, "timeout": 7200}
 
 
 def classify_value(ctx, value, depth=0):
